@@ -470,25 +470,25 @@ func buildField(ww *conversionVisitor, node sourcewalk.FieldNode) (*descriptorpb
 				}
 
 				if st.Integer.Rules.Maximum != nil {
-					if st.Integer.Rules.ExclusiveMaximum != nil {
-						rules.GetInt32().LessThan = &validate.Int32Rules_Lte{
-							Lte: int32(*st.Integer.Rules.Maximum),
-						}
-					} else {
+					if st.Integer.Rules.ExclusiveMaximum != nil && *st.Integer.Rules.ExclusiveMaximum {
 						rules.GetInt32().LessThan = &validate.Int32Rules_Lt{
 							Lt: int32(*st.Integer.Rules.Maximum),
+						}
+					} else {
+						rules.GetInt32().LessThan = &validate.Int32Rules_Lte{
+							Lte: int32(*st.Integer.Rules.Maximum),
 						}
 					}
 				}
 
 				if st.Integer.Rules.Minimum != nil {
-					if st.Integer.Rules.ExclusiveMinimum != nil {
-						rules.GetInt32().GreaterThan = &validate.Int32Rules_Gte{
-							Gte: int32(*st.Integer.Rules.Minimum),
-						}
-					} else {
+					if st.Integer.Rules.ExclusiveMinimum != nil && *st.Integer.Rules.ExclusiveMinimum {
 						rules.GetInt32().GreaterThan = &validate.Int32Rules_Gt{
 							Gt: int32(*st.Integer.Rules.Minimum),
+						}
+					} else {
+						rules.GetInt32().GreaterThan = &validate.Int32Rules_Gte{
+							Gte: int32(*st.Integer.Rules.Minimum),
 						}
 					}
 				}
@@ -499,25 +499,25 @@ func buildField(ww *conversionVisitor, node sourcewalk.FieldNode) (*descriptorpb
 				}
 
 				if st.Integer.Rules.Maximum != nil {
-					if st.Integer.Rules.ExclusiveMaximum != nil {
-						rules.GetInt64().LessThan = &validate.Int64Rules_Lte{
-							Lte: *st.Integer.Rules.Maximum,
-						}
-					} else {
+					if st.Integer.Rules.ExclusiveMaximum != nil && *st.Integer.Rules.ExclusiveMaximum {
 						rules.GetInt64().LessThan = &validate.Int64Rules_Lt{
 							Lt: *st.Integer.Rules.Maximum,
+						}
+					} else {
+						rules.GetInt64().LessThan = &validate.Int64Rules_Lte{
+							Lte: *st.Integer.Rules.Maximum,
 						}
 					}
 				}
 
 				if st.Integer.Rules.Minimum != nil {
-					if st.Integer.Rules.ExclusiveMinimum != nil {
-						rules.GetInt64().GreaterThan = &validate.Int64Rules_Gte{
-							Gte: *st.Integer.Rules.Minimum,
-						}
-					} else {
+					if st.Integer.Rules.ExclusiveMinimum != nil && *st.Integer.Rules.ExclusiveMinimum {
 						rules.GetInt64().GreaterThan = &validate.Int64Rules_Gt{
 							Gt: *st.Integer.Rules.Minimum,
+						}
+					} else {
+						rules.GetInt64().GreaterThan = &validate.Int64Rules_Gte{
+							Gte: *st.Integer.Rules.Minimum,
 						}
 					}
 				}
@@ -528,25 +528,25 @@ func buildField(ww *conversionVisitor, node sourcewalk.FieldNode) (*descriptorpb
 				}
 
 				if st.Integer.Rules.Maximum != nil {
-					if st.Integer.Rules.ExclusiveMaximum != nil {
-						rules.GetUint32().LessThan = &validate.UInt32Rules_Lte{
-							Lte: uint32(*st.Integer.Rules.Maximum),
-						}
-					} else {
+					if st.Integer.Rules.ExclusiveMaximum != nil && *st.Integer.Rules.ExclusiveMaximum {
 						rules.GetUint32().LessThan = &validate.UInt32Rules_Lt{
 							Lt: uint32(*st.Integer.Rules.Maximum),
+						}
+					} else {
+						rules.GetUint32().LessThan = &validate.UInt32Rules_Lte{
+							Lte: uint32(*st.Integer.Rules.Maximum),
 						}
 					}
 				}
 
 				if st.Integer.Rules.Minimum != nil {
-					if st.Integer.Rules.ExclusiveMinimum != nil {
-						rules.GetUint32().GreaterThan = &validate.UInt32Rules_Gte{
-							Gte: uint32(*st.Integer.Rules.Minimum),
-						}
-					} else {
+					if st.Integer.Rules.ExclusiveMinimum != nil && *st.Integer.Rules.ExclusiveMinimum {
 						rules.GetUint32().GreaterThan = &validate.UInt32Rules_Gt{
 							Gt: uint32(*st.Integer.Rules.Minimum),
+						}
+					} else {
+						rules.GetUint32().GreaterThan = &validate.UInt32Rules_Gte{
+							Gte: uint32(*st.Integer.Rules.Minimum),
 						}
 					}
 				}
@@ -557,25 +557,25 @@ func buildField(ww *conversionVisitor, node sourcewalk.FieldNode) (*descriptorpb
 				}
 
 				if st.Integer.Rules.Maximum != nil {
-					if st.Integer.Rules.ExclusiveMaximum != nil {
-						rules.GetUint64().LessThan = &validate.UInt64Rules_Lte{
-							Lte: uint64(*st.Integer.Rules.Maximum),
-						}
-					} else {
+					if st.Integer.Rules.ExclusiveMaximum != nil && *st.Integer.Rules.ExclusiveMaximum {
 						rules.GetUint64().LessThan = &validate.UInt64Rules_Lt{
 							Lt: uint64(*st.Integer.Rules.Maximum),
+						}
+					} else {
+						rules.GetUint64().LessThan = &validate.UInt64Rules_Lte{
+							Lte: uint64(*st.Integer.Rules.Maximum),
 						}
 					}
 				}
 
 				if st.Integer.Rules.Minimum != nil {
-					if st.Integer.Rules.ExclusiveMinimum != nil {
-						rules.GetUint64().GreaterThan = &validate.UInt64Rules_Gte{
-							Gte: uint64(*st.Integer.Rules.Minimum),
-						}
-					} else {
+					if st.Integer.Rules.ExclusiveMinimum != nil && *st.Integer.Rules.ExclusiveMinimum {
 						rules.GetUint64().GreaterThan = &validate.UInt64Rules_Gt{
 							Gt: uint64(*st.Integer.Rules.Minimum),
+						}
+					} else {
+						rules.GetUint64().GreaterThan = &validate.UInt64Rules_Gte{
+							Gte: uint64(*st.Integer.Rules.Minimum),
 						}
 					}
 				}
